@@ -148,6 +148,15 @@ func init() {
 		reg("sync/atomic.Store"+t, atomicStore)
 	}
 
+	// ---- files: absent unless a harness replaces the call -------------------------
+	for _, n := range []string{"io/ioutil.ReadFile", "os.ReadFile"} {
+		reg(n, func(ex *Exec, st *State, fv FuncV, args []Value, res ssa.Value, at ssa.Instruction) bool {
+			ex.Notes["file read modelled as 'no such file' (no harness replacement given)"]++
+			setRes(st, res, TupleV{zeroValue(fv.fn.Signature.Results().At(0).Type()), ex.newErr(at, StrV{})})
+			return true
+		})
+	}
+
 	// ---- time ------------------------------------------------------------------
 	reg("time.Now", func(ex *Exec, st *State, fv FuncV, args []Value, res ssa.Value, at ssa.Instruction) bool {
 		setRes(st, res, zeroValue(fv.fn.Signature.Results().At(0).Type()))
